@@ -54,7 +54,8 @@ theorem replay_faithful (ao : AliasOracle) (w : Key → RVal) (cfg cfg' : OpCfg)
     (hF : p.Faithful w) (hN : p.NoPlayData)
     (hres : (runOperation ao cfg s p).2 = .out o) (hord : ∀ t, o = .exc t → isFramework t = false)
     (hsaved : (runOperation ao cfg s p).1.store = rec :: s.store)
-    (hidle' : s'.Idle) (hfetch : fetch s'.store id = some rec') (hrt : rec'.data = rec.data) :
+    (hidle' : s'.Idle) (hfetch : fetch s'.store id = some rec') (hrt : rec'.data = rec.data)
+    (hdur : rec'.md.hasDuration = true) :
     (runPlay ao cfg' s' id p).2 = .played (extractOutputs rec'.data).reverse (extractOutputs rec'.data) ∧
     (runPlay ao cfg' s' id p).1.journal = s'.journal ∧
     (extractOutputs rec'.data).head? = some (.outArgs opAlias 1, .sent [opOutVal o] []) := by
@@ -96,7 +97,7 @@ theorem replay_faithful (ao : AliasOracle) (w : Key → RVal) (cfg cfg' : OpCfg)
     simp only at hdata
     -- replay side
     unfold runPlay
-    simp only [hfetch]
+    simp only [hfetch, hdur, if_true]
     have ht := tick_fields (addLog s' (.get id))
     generalize tick (addLog s' (.get id)) = q at ht ⊢
     obtain ⟨sa, ta0⟩ := q
